@@ -143,7 +143,7 @@ def small_asts(thorough):
 class C05(common.Prop):
     id = 'C05'
     level = 'proof'
-    technique = ('Coq: denote_expand at specification level + the reader simulation for node multipliers, bounded-exhaustive '
+    technique = ('Coq: unbounded theorem for node multipliers (denote_expand + reader simulation: same graph, same numbering), bounded-exhaustive '
                  'theorem over enumerated small ASTs with multipliers, refutation witnesses per defect class; per-run '
                  'metamorphic check shorthand vs longhand on the implementation (renumbering witness checked in Coq) and '
                  'correspondence of the reader model on both strings')
@@ -230,6 +230,6 @@ class C05(common.Prop):
         return case
 
 
-C05.fail_text.update({n + 10 * k: C05.fail_text[n] + ' [inside known defect class %s, but not with the analysed behaviour]' % c
+C05.fail_text.update({n + 10 * k: C05.fail_text[n] + ' [input lies in known defect class %s]' % c
                      for k, c in CLASSES_C05.items() for n in (1, 2)})
 PROP = C05()
